@@ -60,6 +60,16 @@ def _linked_with_any(tasks: Iterable['Task'], others: Iterable['Task']) -> bool:
     return False
 
 
+def _unique_objects(tasks):
+    seen = set()
+    res = []
+    for t in tasks:
+        if id(t) not in seen:
+            seen.add(id(t))
+            res.append(t)
+    return res
+
+
 def _check_not_none(obj: Any, name: str):
     if obj is None:
         raise RuntimeError(f"{name} is None")
@@ -867,7 +877,7 @@ class Task:
                 yield pr
                 yield from get_predecessor(pr)
         # TODO поиск предшественников не оптимальный, много дублей, надо оптимизировать
-        return _unique_tasks(get_predecessor(self))
+        return _unique_objects(get_predecessor(self))
 
     @property
     def successors(self) -> _SuccessorsList:
@@ -914,7 +924,7 @@ class Task:
                 yield from get_successor(pr)
 
         # TODO поиск последователей не оптимальный, много дублей, надо оптимизировать
-        return _unique_tasks(get_successor(self))
+        return _unique_objects(get_successor(self))
 
     def to_dict(self) -> dict:
         d = {
